@@ -36,6 +36,8 @@ structure HashTable where
   size      : Nat
   threshold : Nat
   buckets   : List (List Entry)
+  /-- `mem_alloc/mem_calloc/mem_free`, copied from the configuration by `new_conf` -/
+  triple    : Triple := .conf
   deriving DecidableEq, Repr
 
 /-- the `CC_Array` built by `get_keys`/`get_values` (fields of `struct cc_array_s`) -/
@@ -43,6 +45,8 @@ structure DArr where
   size : Nat
   cap  : Nat
   buf  : Buf Nat
+  /-- the array's allocator triple (`get_keys/get_values` copy the table's into the `CC_ArrayConf`) -/
+  triple : Triple := .conf
   deriving DecidableEq, Repr
 
 /-- `CC_HashTableIter`; an entry pointer is represented by the key of the entry it points to
@@ -58,9 +62,19 @@ namespace HT
 def SIZE_MOD : Nat := 2 ^ 64
 
 /-- `n` releases in a row -/
-def freeN (m : Mem) : Nat → Mem
+def freeN (m : Mem) (tr : Triple) : Nat → Mem
   | 0 => m
-  | n + 1 => freeN m.free n
+  | n + 1 => freeN (m.freeT tr) tr n
+
+/-- blocks currently owned through the given triple -/
+def liveOf (m : Mem) : Triple → Nat
+  | .conf => m.live
+  | .libc => m.liveLibc
+
+/-- successful allocations of the current operation through the given triple -/
+def allocsOf (m : Mem) : Triple → Nat
+  | .conf => m.nalloc
+  | .libc => m.lalloc
 
 /-- hash stored for a key: the NULL key is pinned to hash 0 -/
 def keyHash (c : HCfg) : Option Nat → Nat
@@ -128,18 +142,18 @@ visits them -/
 def walk (t : HashTable) : List Entry := (t.buckets.take t.capacity).flatten
 
 /-- `cc_hashtable_new_conf` -/
-def new (c : HCfg) (initCap : Nat) (m : Mem) : Stat × Option HashTable × Mem :=
-  let a1 := m.alloc
+def new (c : HCfg) (initCap : Nat) (tr : Triple) (m : Mem) : Stat × Option HashTable × Mem :=
+  let a1 := m.allocT tr
   if !a1.1 then (.errAlloc, none, a1.2) else
   let cap := roundPowTwo initCap
-  let a2 := a1.2.alloc
-  if !a2.1 then (.errAlloc, none, a2.2.free) else
-  (.ok, some { capacity := cap, size := 0, threshold := c.thr cap, buckets := List.replicate cap [] }, a2.2)
+  let a2 := a1.2.allocT tr
+  if !a2.1 then (.errAlloc, none, a2.2.freeT tr) else
+  (.ok, some { capacity := cap, size := 0, threshold := c.thr cap, buckets := List.replicate cap [], triple := tr }, a2.2)
 
 /-- `cc_hashtable_destroy`: every entry, the bucket array, the header -/
 def destroy (t : HashTable) (m : Mem) : Mem :=
   let m := m.check (t.capacity ≤ t.buckets.length)
-  (freeN m t.walk.length).free.free
+  ((freeN m t.triple t.walk.length).freeT t.triple).freeT t.triple
 
 /-- `move_entries`: every entry is pushed on the head of its new chain, in walk order -/
 def moveEntries (es : List Entry) (dest : List (List Entry)) (n : Nat) : List (List Entry) :=
@@ -148,12 +162,12 @@ def moveEntries (es : List Entry) (dest : List (List Entry)) (n : Nat) : List (L
 /-- `resize` -/
 def resize (c : HCfg) (t : HashTable) (newCap : Nat) (m : Mem) : Stat × HashTable × Mem :=
   if t.capacity = Gen.MAX_POW_TWO then (.errMaxCapacity, t, m) else
-  let a := m.alloc
+  let a := m.allocT t.triple
   if !a.1 then (.errAlloc, t, a.2) else
   let m := a.2.check (decide (t.capacity ≤ t.buckets.length) &&
                       t.walk.all (fun e => decide (e.hash &&& (newCap - 1) < newCap)))
   let nb := moveEntries t.walk (List.replicate newCap []) newCap
-  (.ok, { capacity := newCap, size := t.size, threshold := c.thr newCap, buckets := nb }, m.free)
+  (.ok, { t with capacity := newCap, threshold := c.thr newCap, buckets := nb }, m.freeT t.triple)
 
 /-- the `while (size >= threshold) resize(capacity << 1)` loop of `cc_hashtable_add`.  The loop is
 bounded by fuel; it cannot run out for a capacity that is a power of two ≤ `MAX_POW_TWO` because
@@ -178,7 +192,7 @@ def add (c : HCfg) (t : HashTable) (key : Option Nat) (v : Nat) (m : Mem) : Stat
   match chainReplace (t.bucket i) key v with
   | some ch => (.ok, { t with buckets := t.buckets.set i ch }, m)
   | none =>
-    let a := m.alloc
+    let a := m.allocT t.triple
     if !a.1 then (.errAlloc, t, a.2) else
     (.ok, { t with buckets := t.buckets.set i ({ key := key, value := v, hash := h } :: t.bucket i),
                    size := t.size + 1 }, a.2)
@@ -201,7 +215,7 @@ def remove (c : HCfg) (t : HashTable) (key : Option Nat) (m : Mem) : Stat × Opt
   let i := t.index (keyHash c key)
   let m := m.check (i < t.buckets.length)
   match chainRemove (t.bucket i) key with
-  | some (v, ch) => (.ok, some v, { t with buckets := t.buckets.set i ch, size := decWrap t.size }, m.free)
+  | some (v, ch) => (.ok, some v, { t with buckets := t.buckets.set i ch, size := decWrap t.size }, m.freeT t.triple)
   | none => (.errKeyNotFound, none, t, m)
 
 /-- `cc_hashtable_remove_all` -/
@@ -209,7 +223,7 @@ def removeAll (t : HashTable) (m : Mem) : HashTable × Mem :=
   let m := m.check (t.capacity ≤ t.buckets.length)
   let n := t.walk.length
   ({ t with buckets := (t.buckets.take t.capacity).map (fun _ => []) ++ t.buckets.drop t.capacity,
-            size := decWrapN t.size n }, freeN m n)
+            size := decWrapN t.size n }, freeN m t.triple n)
 
 /-- `cc_hashtable_foreach_key`: the keys handed to the callback, in order -/
 def foreachKey (t : HashTable) (m : Mem) : List (Option Nat) × Mem :=
@@ -227,23 +241,26 @@ namespace DArr
 open HT
 
 /-- `cc_array_new_conf` with `exp_factor = 2` -/
-def new (cap : Nat) (m : Mem) : Stat × Option DArr × Mem :=
+def new (cap : Nat) (tr : Triple) (m : Mem) : Stat × Option DArr × Mem :=
   if cap = 0 ∨ 2 ≥ Gen.CC_MAX_ELEMENTS / cap then (.errInvalidCapacity, none, m) else
-  let a1 := m.alloc
+  -- the buffer size in bytes must not wrap around either (`sizeof(void*) = 8`)
+  if cap > Gen.CC_MAX_ELEMENTS / 8 then (.errInvalidCapacity, none, m) else
+  let a1 := m.allocT tr
   if !a1.1 then (.errAlloc, none, a1.2) else
-  let a2 := a1.2.alloc
-  if !a2.1 then (.errAlloc, none, a2.2.free) else
-  (.ok, some { size := 0, cap := cap, buf := Buf.mk cap }, a2.2)
+  let a2 := a1.2.allocT tr
+  if !a2.1 then (.errAlloc, none, a2.2.freeT tr) else
+  (.ok, some { size := 0, cap := cap, buf := Buf.mk cap, triple := tr }, a2.2)
 
 /-- `expand_capacity` -/
 def expand (c : HCfg) (a : DArr) (m : Mem) : Stat × DArr × Mem :=
   if a.cap = Gen.CC_MAX_ELEMENTS then (.errMaxCapacity, a, m) else
   let nc := c.agrow a.cap
   let nc := if nc ≤ a.cap then (if a.cap < Gen.CC_MAX_ELEMENTS / 2 then a.cap + 1 else Gen.CC_MAX_ELEMENTS) else nc
-  let al := m.alloc
+  if nc > Gen.CC_MAX_ELEMENTS / 8 then (.errMaxCapacity, a, m) else
+  let al := m.allocT a.triple
   if !al.1 then (.errAlloc, a, al.2) else
   let m := al.2.check (decide (a.size ≤ nc) && decide (a.size ≤ a.buf.length))
-  (.ok, { a with buf := (Buf.mk nc).memcpy 0 a.buf 0 a.size, cap := nc }, m.free)
+  (.ok, { a with buf := (Buf.mk nc).memcpy 0 a.buf 0 a.size, cap := nc }, m.freeT a.triple)
 
 /-- `cc_array_add` -/
 def add (c : HCfg) (a : DArr) (x : Nat) (m : Mem) : Stat × DArr × Mem :=
@@ -254,7 +271,7 @@ def add (c : HCfg) (a : DArr) (x : Nat) (m : Mem) : Stat × DArr × Mem :=
   (.ok, { a with buf := a.buf.put a.size x, size := a.size + 1 }, m)
 
 /-- `cc_array_destroy` -/
-def destroy (_a : DArr) (m : Mem) : Mem := m.free.free
+def destroy (a : DArr) (m : Mem) : Mem := (m.freeT a.triple).freeT a.triple
 
 /-- the held elements -/
 def contents (a : DArr) : List Nat := a.buf.firstN a.size
@@ -276,7 +293,7 @@ open HT
 
 /-- common body of `cc_hashtable_get_keys` / `cc_hashtable_get_values` -/
 def collect (c : HCfg) (t : HashTable) (xs : List Nat) (m : Mem) : Stat × Option DArr × Mem :=
-  let r := DArr.new t.size m
+  let r := DArr.new t.size t.triple m
   match r.2.1 with
   | none => (r.1, none, r.2.2)
   | some a =>
@@ -322,11 +339,15 @@ def iterNext (t : HashTable) (it : HIter) (m : Mem) : Stat × Option Entry × HI
         | some i => (.ok, some e, { bucketIndex := i, prev := some k, next := (t.bucket i).head?.map (·.key) }, m)
         | none => (.ok, some e, { it with prev := some k, next := none }, m)
 
-/-- `cc_hashtable_iter_remove`: `cc_hashtable_remove(table, prev_entry->key, out)` -/
-def iterRemove (c : HCfg) (t : HashTable) (it : HIter) (m : Mem) : Stat × Option Nat × HashTable × Mem :=
+/-- `cc_hashtable_iter_remove`: rejected when `prev_entry` is NULL (nothing yielded yet, or the
+yielded entry was already removed through the iterator); otherwise
+`cc_hashtable_remove(table, prev_entry->key, out)`, and `prev_entry = NULL` after a successful removal -/
+def iterRemove (c : HCfg) (t : HashTable) (it : HIter) (m : Mem) : Stat × Option Nat × HashTable × HIter × Mem :=
   match it.prev with
-  | none => (.errKeyNotFound, none, t, m.check false)
-  | some k => t.remove c k m
+  | none => (.errKeyNotFound, none, t, it, m)
+  | some k =>
+    let r := t.remove c k m
+    (r.1, r.2.1, r.2.2.1, if r.1 = .ok then { it with prev := none } else it, r.2.2.2)
 
 /-! ### abstraction and invariant -/
 
